@@ -18,9 +18,9 @@ def skipOf : Val → SkipVal
   | .bool b => .bool b
   | _ => .other
 
-def adjOf : Val → Adj
-  | .omap kvs => { with_ := ssPairs ((kvs.lookup "with").getD .null), skip := skipOf ((kvs.lookup "skip").getD .null) }
-  | _ => { with_ := [], skip := .absent }
+def adjOf : Val → Option Adj
+  | .omap kvs => some { with_ := ssPairs ((kvs.lookup "with").getD .null), skip := skipOf ((kvs.lookup "skip").getD .null) }
+  | _ => none
 
 def matrixOf : Val → Option Matrix
   | .omap kvs =>
